@@ -48,6 +48,7 @@ def main():
                 print(s, c, "exit", rc, "violations", len(viol), flush=True)
         finally:
             sh("git -C /repo worktree remove --force %s" % wt)
+            sh("rm -rf /verif/.work/mut_%s" % s)
         json.dump(results, open(respath, "w"), indent=1)
     # restore evidence written by these runs? evidence files are rewritten by the next real run
 
